@@ -2709,7 +2709,14 @@ SUBS = [
     Sub("collection", exec_coll, strategy=coll_cases(), quick=800, thorough=96_000, shards_quick=8),
 ]
 
-KNOWN_PREDICATES = {}
+def _kp_tree_unnamed_nodes_sorted(case, sig, msg):
+    """tree history with `bifurcating` (new nodes are unnamed) followed by `sorted` (every unnamed node is
+    called edge.0): the rich dict is keyed by node name, so lengths and names of those nodes collide"""
+    ops = [op[0] for op in case.get("ops", []) if op]
+    return "bifurcating" in ops and "sorted" in ops[ops.index("bifurcating") + 1 :]
+
+
+KNOWN_PREDICATES = {"tree_unnamed_nodes_sorted": _kp_tree_unnamed_nodes_sorted}
 
 META = {
     "technique": "Hypothesis-generated objects and pre-serialisation histories; round trip through JSON, rich dict and pickle (copy / deepcopy / the class's own copy() where offered) with type specific observational equality (plus a string model for sequences, sequences handed out by collections, and collections)",
